@@ -18,7 +18,19 @@ for d in /verif/seeded/*/; do
   git -C /repo apply -R $d/patch.diff
   viol=$(grep -c '^VIOLATION' /tmp/seedrun.$tag.out)
   first=$(grep '^VIOLATION' /tmp/seedrun.$tag.out | head -1 | sed 's/.*obligation=\([^ ]*\).*/\1/')
-  { echo "exit=$rc violations=$viol"; grep -E '^(VIOLATION|UNDECIDED|property=)' /tmp/seedrun.$tag.out | cut -c1-300; } > $d/last_run.txt
+  { echo "exit=$rc violations=$viol"; grep -E '^(VIOLATION|UNDECIDED|property=)' /tmp/seedrun.$tag.out | cut -c1-700; } > $d/last_run.txt
+  # keep the replay records of this run (the evidence directory is rewritten by the next check)
+  rm -rf $d/replay; mkdir -p $d/replay
+  grep '^VIOLATION' /tmp/seedrun.$tag.out | sed 's/.*replay=\([^ ]*\).*/\1/' | head -3 | while read f; do
+    [ -f "$f" ] && python3 - "$f" $d/replay <<'PY'
+import json, os, sys
+d = json.load(open(sys.argv[1]))
+for k in list(d):
+    if isinstance(d[k], str) and len(d[k]) > 4000:
+        d[k] = d[k][:4000] + ' ...[cut]'
+json.dump(d, open(os.path.join(sys.argv[2], os.path.basename(sys.argv[1])), 'w'), indent=1)
+PY
+  done
   echo "$tag $prop exit=$rc violations=$viol first=$first" | tee -a seeded/MATRIX.txt
   rm -f /tmp/seedrun.$tag.out
 done
